@@ -44,7 +44,8 @@ type vfC11Cfg struct {
 }
 
 var vfInjections = []string{"none", "same-address-other-conv-sn5", "same-address-other-conv-sn0", "foreign-address-same-conv-replay", "foreign-address-parity", "foreign-address-short-data",
-	"client-from-foreign-address", "same-address-other-conv-ack", "client-from-foreign-address-same-port", "client-from-peer-address-other-conv"}
+	"client-from-foreign-address", "same-address-other-conv-ack", "client-from-foreign-address-same-port", "client-from-peer-address-other-conv",
+	"same-address-mixed-conv-datagram", "client-from-peer-address-mixed-conv-datagram"}
 
 func vfC11Run(cf vfC11Cfg) explore.RunFunc {
 	return func(e *explore.Exec) explore.Verdict {
@@ -297,6 +298,18 @@ func vfC11Run(cf vfC11Cfg) explore.RunFunc {
 							// from the right address but belonging to another conversation (e.g. a stale one): the core must reject it
 							p0.sock.inject(laddr, frame(wire.EncodeSegment(wire.Seg{Conv: p0.conv + 100, Cmd: wire.CmdAck, Wnd: 0, Sn: 0, Una: 1 << 20}, -1)))
 							p0.sock.inject(laddr, frame(wire.EncodeSegment(wire.Seg{Conv: p0.conv + 100, Cmd: wire.CmdPush, Wnd: 32, Sn: 0, Data: forged}, -1)))
+						case "same-address-mixed-conv-datagram":
+							// one datagram, several segments: the first belongs to peer 0's conversation, the second to another one and
+							// carries a sequence number inside peer 0's receive window — every segment must be checked, not only the first
+							for k := uint32(0); k < 6; k++ {
+								d := wire.EncodeSegment(wire.Seg{Conv: p0.conv, Cmd: wire.CmdWins, Wnd: 32}, -1)
+								d = append(d, wire.EncodeSegment(wire.Seg{Conv: p0.conv + 100, Cmd: wire.CmdPush, Wnd: 32, Sn: k, Data: forged}, -1)...)
+								lsock.inject(p0.addr, frame(d))
+							}
+						case "client-from-peer-address-mixed-conv-datagram":
+							d := wire.EncodeSegment(wire.Seg{Conv: p0.conv, Cmd: wire.CmdWins, Wnd: 32}, -1)
+							d = append(d, wire.EncodeSegment(wire.Seg{Conv: p0.conv + 100, Cmd: wire.CmdPush, Wnd: 32, Sn: 0, Data: forged}, -1)...)
+							p0.sock.inject(laddr, frame(d))
 						case "client-from-foreign-address":
 							// the dialled session of peer 0 gets a well-formed segment of its own conversation from a stranger
 							p0.sock.inject(foreign, frame(wire.EncodeSegment(wire.Seg{Conv: p0.conv, Cmd: wire.CmdAck, Wnd: 0, Sn: 0, Una: 1 << 20}, -1)))
@@ -402,8 +415,9 @@ func vfC11(c *hx.Ctx) {
 		{"two-peers/sched", vfC11Cfg{Peers: 2, K: 0, Bound: hx.Pick(c, 1, 2)}},
 		{"two-peers/sched/inject", vfC11Cfg{Peers: 2, K: 0, Inject: true, Bound: 1}},
 	}
-	per := (len(units) + max(c.Of, 1) - 1) / max(c.Of, 1)
+	per := (len(units) + 3 + max(c.Of, 1) - 1) / max(c.Of, 1)
 	left := time.Until(c.Deadline)
+	vfC11Reconnect(c, left/time.Duration(max(per, 1)))
 	for _, x := range units {
 		c.UnitBudget = left / time.Duration(max(per, 1))
 		c.Explore(x.name, map[string]any{"peers": x.cf.Peers, "K": x.cf.K, "backlog": x.cf.Backlog, "cipher": x.cf.Cipher, "fec": []int{x.cf.DS, x.cf.PS}, "inject": x.cf.Inject, "deviation_bound": x.cf.Bound}, x.cf.Bound, vfC11Run(x.cf))
